@@ -1184,7 +1184,8 @@ where
 		if let Some(e) = tx.ttl_cutoff_height {
 			if tip.0 >= e {
 				wallet_lock!(wallet_inst, w);
-				let parent_key_id = w.parent_key_id();
+				// (the account the list was read for - not whichever is active by now: log ids
+				// are per account)
 				match tx::cancel_tx(&mut **w, keychain_mask, &parent_key_id, Some(tx.id), None) {
 					// the list was read before steps 2 and 3: an entry they have confirmed (by
 					// its kernel) or cancelled (scan) has nothing left to expire, and must not
